@@ -100,7 +100,12 @@ let () =
           match getd dst with
           | None -> stat "unresolved" 1
           | Some got ->
-            Buffer.add_string digest (Printf.sprintf "%d:%s;" pstep (show_vt got));
+            (* MTBDD value codes are interned in order of first appearance (per driver process):
+               the digest must contain the values themselves to be comparable between runs *)
+            Buffer.add_string digest (Printf.sprintf "%d:%s;" pstep
+              (if kname = "mtbdd" then
+                 Digest.to_hex (Digest.string (String.concat "," (List.map mt_string_of_code (Array.to_list got))))
+               else show_vt got));
             if got <> exp then
               fail pstep prop "prop"
                 (if kname = "mtbdd" then
